@@ -170,4 +170,56 @@ theorem nonText_coalesceGo : ∀ (s : Stream) (buf : Option Str),
 /-- `_coalesce` neither drops, adds, moves nor merges an event that is not TEXT -/
 theorem nonText_coalesce (s : Stream) : nonText (coalesce s) = nonText s := nonText_coalesceGo s none
 
+/-! ### `ET(element)` -/
+
+theorem balance_etText (o : Option Str) (st : List QName) (rest : Stream) :
+    balance st (etText o ++ rest) = balance st rest := by
+  cases o with
+  | none => rfl
+  | some t => cases t <;> simp [etText, balance]
+
+mutual
+  theorem balance_etStream : ∀ (t : ETree) (st : List QName) (rest : Stream),
+      balance st (etStream t ++ rest) = balance st rest
+    | .node tag attrs text kids tail, st, rest => by
+        simp only [etStream, List.cons_append, List.append_assoc, balance]
+        rw [balance_etText, balance_etKids kids (qnameOf tag :: st)]
+        simp only [balance, if_true]
+        exact balance_etText tail st rest
+  theorem balance_etKids : ∀ (ks : List ETree) (st : List QName) (rest : Stream),
+      balance st (etKids ks ++ rest) = balance st rest
+    | [], st, rest => by simp [etKids]
+    | k :: ks, st, rest => by
+        simp only [etKids, List.append_assoc]
+        rw [balance_etStream k st, balance_etKids ks st rest]
+end
+
+/-- the stream `ET` makes of any ElementTree element is well nested -/
+theorem wellNested_etStream (t : ETree) : WellNested (etStream t) := by
+  unfold WellNested
+  have := balance_etStream t [] []
+  simpa [balance] using this
+
+def isNsEvent : Event → Bool
+  | .startNs _ _ => true
+  | .endNs _ => true
+  | _ => false
+
+theorem noNs_etText (o : Option Str) : (etText o).all (fun e => !isNsEvent e) = true := by
+  cases o with
+  | none => rfl
+  | some t => cases t <;> simp [etText, isNsEvent]
+
+mutual
+  theorem noNs_etStream : ∀ (t : ETree), (etStream t).all (fun e => !isNsEvent e) = true
+    | .node tag attrs text kids tail => by
+        simp only [etStream, List.all_cons, List.all_append, noNs_etText, noNs_etKids kids]
+        rfl
+  theorem noNs_etKids : ∀ (ks : List ETree), (etKids ks).all (fun e => !isNsEvent e) = true
+    | [] => rfl
+    | k :: ks => by
+        simp only [etKids, List.all_append, noNs_etStream k, noNs_etKids ks]
+        rfl
+end
+
 end Genshi.Xml
